@@ -87,8 +87,28 @@ def check(name, checks, tier="quick", seed=0):
     json.dump(meta, open(meta_path, "w"), indent=1)
 
 
+def table():
+    rows = []
+    for name in sorted(os.listdir(SEEDED)):
+        mp = os.path.join(SEEDED, name, "meta.json")
+        if not os.path.exists(mp):
+            continue
+        m = json.load(open(mp))
+        conf = m.get("confirmed", {})
+        det = m.get("detection", {})
+        caught = [c for c, r in sorted(det.items()) if r.get("caught")]
+        missed = [c for c, r in sorted(det.items()) if not r.get("caught")]
+        first = m["description_and_manifestation"].strip().splitlines()[0][:110]
+        rows.append(f"| {name} | {m['property']} | {'yes' if conf.get('ok') else 'NO'} | {', '.join(caught) or '-'} | {', '.join(missed) or '-'} | {first} |")
+    text = "# Seeded property-breaking changes\n\nEach directory holds patch.diff, demo.py and meta.json (what the change needs in order to manifest, confirmation, detection results).\n`python3 tools/run_seeded.py verify|check|all` re-runs the evaluation in scratch worktrees (never in /repo).\n\n| name | breaks | confirmed (tests pass, demo fails/passes) | caught by (quick tier, seed 0) | run but not caught | summary |\n|---|---|---|---|---|---|\n" + "\n".join(rows) + "\n"
+    open(os.path.join(SEEDED, "README.md"), "w").write(text)
+    print(text)
+
+
 def main():
     cmd = sys.argv[1]
+    if cmd == "table":
+        return table()
     if cmd == "verify":
         verify(sys.argv[2])
     elif cmd == "check":
